@@ -28,6 +28,7 @@ func main() {
 	list := flag.Bool("list", false, "list properties")
 	mutants := flag.String("mutants", "", "development: run the mutants of this property and print the results")
 	only := flag.String("only", "", "with -mutants: run only this mutant id")
+	dump := flag.String("dump", "", "development: dump an inventory (panics)")
 	flag.Parse()
 
 	if *list {
@@ -59,6 +60,10 @@ func main() {
 	var seed int64
 	if s := os.Getenv("VERIF_SEED"); s != "" {
 		seed, _ = strconv.ParseInt(s, 10, 64)
+	}
+	if *dump == "panics" {
+		dumpPanics(*repo)
+		return
 	}
 	if *mutants != "" {
 		os.Exit(mutantsCLI(*mutants, *repo, *verif, *only))
